@@ -38,7 +38,9 @@ func NewPublicIPFetcher() *PublicIPFetcher {
 
 func (p *PublicIPFetcher) GetIP(ctx context.Context) (net.IP, error) {
 	myIP, err := cache.GetWithExpiration("source_public_ip", func() ([]byte, error) {
-		ip, err := GetPublicIP(ctx, p.client, p.backoffPolicy)
+		// backoff.Retry mutates the policy it is given: lookups of concurrent requests must not share one
+		policy := *p.backoffPolicy
+		ip, err := GetPublicIP(ctx, p.client, &policy)
 		log.Debugf("Public IP fetched: %s", ip.String())
 		if err != nil {
 			return nil, err
